@@ -546,6 +546,49 @@ func runTiming(in sx.Tree) sx.Tree {
 	}
 	var mainDur time.Duration
 	mainSent := int64(0)
+	if in.Len() >= 6 && in.At(5).Int() == 1 {
+		// concurrent variant: the recovery consumer runs in its own goroutine (as in production); while it waits for the
+		// token of its last record the main consumer handles a rebalance (RevokedPartitions) and one more record:
+		// neither may have to wait for the limiter
+		var elapsed time.Duration
+		rdone := make(chan struct{})
+		t0 := time.Now()
+		go func() {
+			defer close(rdone)
+			for i := int64(0); i < n; i++ {
+				rc.ProcessEventV(recMsg(i%np, i/np+1))
+			}
+			elapsed = time.Since(t0)
+		}()
+		deadline := time.Now().Add(time.Duration(float64(n)/float64(rate)*float64(time.Second)) + 5*time.Second)
+		for int64(len(out)) < n-1 && time.Now().Before(deadline) {
+			time.Sleep(200 * time.Microsecond)
+		}
+		time.Sleep(5 * time.Millisecond)
+		m0 := time.Now()
+		k.ProcessEventV(kafka.RevokedPartitions{})
+		for mainSent < nmain {
+			k.ProcessEventV(recMsg(0, 2000000+mainSent))
+			mainSent++
+		}
+		mainDur = time.Since(m0)
+		select {
+		case <-rdone:
+		case <-time.After(5*time.Second + time.Duration(2*float64(time.Second)/float64(rate))):
+			elapsed = time.Since(t0)
+		}
+		emitted, mainEmitted := int64(0), int64(0)
+		for len(out) > 0 {
+			ev := <-out
+			if ev.Recovery {
+				emitted++
+			} else {
+				mainEmitted++
+			}
+		}
+		return sx.T(sx.L(1), sx.L(int64(limit*1000+0.5)), sx.L(int64(burst)), sx.L(every), sx.L(elapsed.Microseconds()),
+			sx.L(mainDur.Microseconds()), sx.L(emitted), sx.L(mainEmitted))
+	}
 	t0 := time.Now()
 	for i := int64(0); i < n; i++ {
 		rc.ProcessEventV(recMsg(i%np, i/np+1))
